@@ -81,15 +81,36 @@ def lookupPower (tbl : List (List Nat × Int)) (k : List Nat) : Int :=
   | some e => e.2
   | none => 0
 
-def parseEnv : List String → Option Env
-  | [a, b, n, l, snd, src, slf, cid, tvp, mbt, vp] => do
+/-- `-` or `hex(text bytes):seconds|x,…`: what `optimize_timestamp` answers on the texts that occur in the program (`x`: it
+raises) — the instance of the model's parameter `Env.readTimestamp` for this run; a text that is not listed reads as "not a
+timestamp" -/
+def parseTimestamps (w : String) : Option (List (List Nat × Option Int)) :=
+  if w == "-" then some []
+  else (w.splitOn ",").mapM fun e =>
+    match e.splitOn ":" with
+    | [k, v] => do
+      let key ← (if k == "" then some [] else parseHex k)
+      if v == "x" then pure (key, none) else pure (key, some (← parseInt v))
+    | _ => none
+
+def lookupTimestamp (tbl : List (List Nat × Option Int)) (k : List Nat) : Option Int :=
+  match tbl.find? (fun e => e.1 == k) with
+  | some e => e.2
+  | none => none
+
+def parseEnv12 : List String → Option Env
+  | [a, b, n, l, snd, src, slf, cid, tvp, mbt, vp, ts] => do
     let tbl ← parseVotingPower vp
+    let tst ← parseTimestamps ts
     pure { amount := ← parseInt a, balance := ← parseInt b, now := ← parseInt n, level := ← parseInt l,
            sender := codes (← hexToString snd), source := codes (← hexToString src),
            self := codes (← hexToString slf), chainId := codes (← hexToString cid),
            totalVotingPower := ← parseInt tvp, minBlockTime := ← parseInt mbt, votingPower := lookupPower tbl,
-           hashes := execHashes }
+           readTimestamp := lookupTimestamp tst, hashes := execHashes }
   | _ => none
+
+def parseEnv (ws : List String) : Option Env :=
+  if ws.length = 11 then parseEnv12 (ws ++ ["-"]) else parseEnv12 ws
 
 /-- `hash <blake2b|sha256|sha512|keccak|sha3> <hex>` -/
 def handleHash : List String → String
@@ -106,7 +127,7 @@ def handleHash : List String → String
     | none => "bad-op"
   | _ => "bad-op"
 
-/-- `impl|spec <fuel> | <amount balance now level sender source self chain_id total_voting_power min_block_time voting_power> | <program>` -/
+/-- `impl|spec <fuel> | <amount balance now level sender source self chain_id total_voting_power min_block_time voting_power [timestamp_texts]> | <program>` -/
 def handle (line : String) : String :=
   match words line with
   | "hash" :: rest => handleHash rest
